@@ -1936,15 +1936,21 @@ class GroupBy:
                 # For cases where we don't have n, use a simple range index
                 n_selected = len(ilocs)
                 out_index = pd.RangeIndex(n_selected)
+            elif keep.ndim == 1:
+                # nth: one row per group that is long enough, labelled by its group
+                out_index = self.result_index[keep]
             else:
-                new_codes = [np.repeat(c, n)[keep] for c in self.result_index.codes]
-                new_codes.append(np.tile(np.arange(n), self.ngroups)[keep])
-                new_levels = [*self.result_index.levels, np.arange(n)]
+                # head / tail: (group label, position within the selection)
+                group_index = _ensure_multi_index(self.result_index)
+                width = keep.shape[1]
+                flat = keep.ravel()
+                new_codes = [np.repeat(c, width)[flat] for c in group_index.codes]
+                new_codes.append(np.tile(np.arange(width), self.ngroups)[flat])
                 out_index = pd.MultiIndex(
                     codes=new_codes,
-                    levels=new_levels,
-                    names=[*self.result_index.names, None],
-                )[keep]
+                    levels=[*group_index.levels, np.arange(width)],
+                    names=[*group_index.names, None],
+                )
 
         col_names = self._col_names_from_value_names(value_names)
 
